@@ -82,6 +82,9 @@ Proof.
   destruct (q x) eqn:Eq; destruct (p x) eqn:Ep; cbn [filter]; rewrite ?Eq, ?Ep, IH; reflexivity.
 Qed.
 
+Lemma fallback_key_ne r l : can_fallback l = true -> conn_key r (to_wildcard l) <> conn_key r l.
+Proof. destruct l as [[|six|g|h] p z]; cbn; intros H; discriminate. Qed.
+
 (* ---------- the server ---------- *)
 Section ServerProofs.
   Variables pstate datagram pout : Type.
@@ -642,4 +645,423 @@ Section ServerProofs.
     destruct (noninterference_gen a evs _ _ (W g1) (W g2) R) as [s1 [o1 [s2 [o2 [R1 [R2 [_ Ho]]]]]]].
     exists s1, o1, s2, o2. auto.
   Qed.
+
+  (* ----- one table entry per key; identities are fresh ----- *)
+  Definition ids_lt (n : Z) (l : tab) : Prop := Forall (fun kc => c_id (snd kc) < n) l.
+  Definition inv (s : sstate pstate) : Prop :=
+    okeys (conns s) /\ NoDup (map fst (conns s)) /\ ids_lt (next_id s) (conns s).
+
+  Lemma ids_lt_remove : forall n (l : tab) k, ids_lt n l -> ids_lt n (remove l k).
+  Proof.
+    unfold ids_lt. intros n l k H. rewrite Forall_forall in *. intros x Hx. apply In_remove in Hx as [Hx _]. auto.
+  Qed.
+  Lemma ids_lt_filter : forall n (l : tab) p, ids_lt n l -> ids_lt n (filter p l).
+  Proof.
+    unfold ids_lt. intros n l p H. rewrite Forall_forall in *. intros x Hx. apply filter_In in Hx as [Hx _]. auto.
+  Qed.
+  Lemma ids_lt_update : forall n (l : tab) k f, (forall c, c_id (f c) = c_id c) -> ids_lt n l -> ids_lt n (update l k f).
+  Proof.
+    induction l as [|[k' c'] r IH]; intros k f Hf H; cbn; [constructor|].
+    inversion H as [|? ? H1 H2]; subst. destruct (key_eqb k k'); constructor; auto.
+    - cbn in *. rewrite Hf. assumption.
+    - apply IH; assumption.
+  Qed.
+  Lemma ids_lt_mono : forall n m (l : tab), n <= m -> ids_lt n l -> ids_lt m l.
+  Proof. unfold ids_lt. intros n m l Hnm H. rewrite Forall_forall in *. intros x Hx. specialize (H x Hx). lia. Qed.
+
+  Lemma goc_inv : forall s r l s' c cr, inv s -> get_or_create s r l = (s', c, cr) -> inv s' /\ next_id s <= next_id s'.
+  Proof.
+    intros s r l s' c cr [Ho [Hn Hi]] H. unfold Model.get_or_create in H.
+    destruct (lookup (conns s) (conn_key r l)) eqn:E1; [injection H as <- _ _; split; [split; auto|lia]|].
+    destruct (if can_fallback l then lookup (conns s) (conn_key r (to_wildcard l)) else None);
+      injection H as <- _ _; [split; [split; auto|lia]|].
+    cbn [conns next_id]. split; [|lia]. split; [constructor; [reflexivity|assumption]|]. split.
+    - cbn. constructor; [apply lookup_none_notin; assumption|assumption].
+    - cbn [conns next_id]. constructor; [cbn; lia|]. eapply ids_lt_mono; [|eassumption]. cbn [next_id]. lia.
+  Qed.
+  Lemma close_fn_inv : forall s c, inv s -> inv (close_fn s c) /\ next_id (close_fn s c) = next_id s.
+  Proof.
+    intros s c [Ho [Hn Hi]]. unfold Model.close_fn. destruct (lookup (conns s) (c_key c)) as [c'|]; [|split; [split; auto|reflexivity]].
+    destruct (c_id c' =? c_id c); [|split; [split; auto|reflexivity]].
+    split; [|reflexivity]. split; [apply okeys_remove; assumption|]. split; [apply NoDup_remove_keys; assumption|].
+    cbn. apply ids_lt_remove. assumption.
+  Qed.
+  Lemma get_conn_inv : forall s r l s' o res, inv s -> get_conn s r l = (s', o, res) -> inv s'.
+  Proof.
+    intros s r l s' o res Hi H. unfold Model.get_conn in H.
+    destruct (get_or_create s r l) as [[t c] cr] eqn:G. destruct (goc_inv _ _ _ _ _ _ Hi G) as [Ht _].
+    destruct (c_closed c).
+    - destruct (close_fn_inv t c Ht) as [Hc _].
+      destruct (get_or_create (close_fn t c) r l) as [[u d] dr] eqn:G'. destruct (goc_inv _ _ _ _ _ _ Hc G') as [Hu _].
+      destruct (c_closed d); injection H as <- _ _; [apply close_fn_inv; assumption|assumption].
+    - injection H as <- _ _. assumption.
+  Qed.
+  Lemma step_inv : forall s e s' o, inv s -> step s e = SOk s' o -> inv s'.
+  Proof.
+    intros s e s' o Hi H. destruct e as [r lst dst d|r la lst|k| |tok rcv|tok]; cbn [Model.step] in H.
+    - destruct (get_conn s r (dgram_laddr lst dst)) as [[s1 o1] res] eqn:G. pose proof (get_conn_inv _ _ _ _ _ _ Hi G) as [Ho [Hn Hl]].
+      destruct res as [c|]; [|injection H as <- _; split; auto].
+      destruct (peer_step (mh s1) (c_st c) (recv_trunc d)); [|discriminate]. injection H as <- _. unfold inv. cbn [conns next_id].
+      split; [apply okeys_update; [reflexivity|assumption]|]. split; [rewrite map_fst_update; assumption|].
+      apply ids_lt_update; [reflexivity|assumption].
+    - destruct (get_conn s r _) as [[s1 o1] res] eqn:G. pose proof (get_conn_inv _ _ _ _ _ _ Hi G) as Hi1.
+      destruct res; injection H as <- _; assumption.
+    - injection H as <- _. destruct Hi as [Ho [Hn Hl]]. unfold inv. cbn [Model.set_conns conns next_id].
+      split; [apply okeys_update; [reflexivity|assumption]|]. split; [rewrite map_fst_update; assumption|].
+      apply ids_lt_update; [reflexivity|assumption].
+    - injection H as <- _. destruct Hi as [Ho [Hn Hl]]. unfold inv. cbn [Model.set_conns conns next_id].
+      split; [apply okeys_filter; assumption|]. split; [apply NoDup_filter_keys; assumption|]. apply ids_lt_filter. assumption.
+    - destruct (mh_lookup (mh s) tok); injection H as <- _; assumption.
+    - injection H as <- _. assumption.
+  Qed.
+
+  (* C10_one_conn_per_key *)
+  Theorem one_conn_per_key : forall evs g s o, run (init_state g) evs = Some (s, o) ->
+    NoDup (map fst (conns s)) /\ (forall k c, lookup (conns s) k = Some c -> c_key c = k /\ c_id c < next_id s).
+  Proof.
+    assert (G : forall evs s s' o, inv s -> run s evs = Some (s', o) -> inv s').
+    { induction evs as [|e r IH]; intros s s' o Hi H; cbn [Model.run] in H; [injection H as <- _; assumption|].
+      destruct (step s e) as [s1 o1|] eqn:E; [|discriminate].
+      destruct (run s1 r) as [[s2 os]|] eqn:R; [|discriminate]. injection H as <- _.
+      eapply IH; [eapply step_inv; eassumption|eassumption]. }
+    intros evs g s o H. assert (Hi : inv (init_state g)) by (repeat split; constructor).
+    destruct (G _ _ _ _ Hi H) as [Ho [Hn Hl]]. split; [assumption|].
+    intros k c Hk. split; [eapply lookup_own; eassumption|].
+    apply lookup_In in Hk. unfold ids_lt in Hl. rewrite Forall_forall in Hl. apply (Hl _ Hk).
+  Qed.
+
+  (* in-order hand-off: a datagram for a key whose connection is open is processed by that very connection,
+     which advances by exactly this datagram; no other key is touched *)
+  Theorem handoff_open : forall s r lst dst d c st' outs err n,
+    let k := conn_key r (dgram_laddr lst dst) in
+    wf s -> lookup (conns s) k = Some c -> c_closed c = false ->
+    peer_step (mh s) (c_st c) (recv_trunc d) = POk st' outs err n ->
+    exists s', step s (EDgram r lst dst d) =
+                 SOk s' (map (SOut (c_id c) k) outs ++ (if err then [SErrProcess r (c_id c)] else [])) /\
+      lookup (conns s') k = Some (upd_conn err st' c) /\
+      (forall k', k' <> k -> lookup (conns s') k' = lookup (conns s) k') /\ mh s' = mh s.
+  Proof.
+    intros s r lst dst d c st' outs err n k Hw Hl Hc Hp. cbn [Model.step].
+    unfold Model.get_conn, Model.get_or_create. fold k. rewrite Hl, Hc. rewrite Hp.
+    pose proof (lookup_own _ _ _ Hw Hl) as Hk. rewrite Hk.
+    eexists. split; [reflexivity|]. cbn [conns mh]. split; [apply lookup_update_same; assumption|].
+    split; [intros k' Hk'; apply lookup_update_other; assumption|reflexivity].
+  Qed.
+
+  (* C10_closed_replaced: the first datagram for a key whose entry is closed creates a fresh connection
+     (announced by OnNewConn, initial state) that replaces the entry; the closed one gets nothing, no other key is touched *)
+  Theorem closed_replaced : forall s r lst dst d c st' outs err n,
+    let laddr := dgram_laddr lst dst in
+    let k := conn_key r laddr in
+    let g := u32 (gmid s + 1) in
+    wf s -> lookup (conns s) k = Some c -> c_closed c = true ->
+    (can_fallback laddr = true -> lookup (conns s) (conn_key r (to_wildcard laddr)) = None) ->
+    peer_step (mh s) (peer_init (u16 g)) (recv_trunc d) = POk st' outs err n ->
+    exists s', step s (EDgram r lst dst d) =
+                 SOk s' (SNew r (next_id s) :: map (SOut (next_id s) k) outs ++ (if err then [SErrProcess r (next_id s)] else [])) /\
+      lookup (conns s') k = Some {| c_id := next_id s; c_key := k; c_closed := err; c_st := st' |} /\
+      (forall k', k' <> k -> lookup (conns s') k' = lookup (conns s) k') /\ mh s' = mh s.
+  Proof.
+    intros s r lst dst d c st' outs err n laddr k g Hw Hl Hc Hfb Hp. cbn [Model.step]. fold laddr.
+    pose proof (lookup_own _ _ _ Hw Hl) as Hk.
+    unfold Model.get_conn. unfold Model.get_or_create at 1. fold k. rewrite Hl, Hc.
+    rewrite close_fn_eq by (rewrite Hk; assumption). rewrite Hk.
+    unfold Model.get_or_create. fold k. cbn [Model.set_conns conns next_id gmid mh].
+    rewrite lookup_remove_same.
+    assert (Hwk : (if can_fallback laddr then lookup (remove (conns s) k) (conn_key r (to_wildcard laddr)) else None) = None).
+    { destruct (can_fallback laddr) eqn:Ef; [|reflexivity].
+      rewrite lookup_remove_other; [apply Hfb; reflexivity|]. apply fallback_key_ne. assumption. }
+    rewrite Hwk. cbn [c_closed c_st c_id c_key mh]. fold g. rewrite Hp.
+    eexists. split; [reflexivity|]. cbn [conns mh update]. rewrite key_eqb_refl. cbn [lookup]. rewrite key_eqb_refl.
+    split; [reflexivity|]. split; [|reflexivity].
+    intros k' Hk'. rewrite (key_eqb_neq _ _ Hk'). apply lookup_remove_other. assumption.
+  Qed.
+
+  (* whatever a connection emits while a datagram from r is processed is attributed to a key of r, to the
+     connection the table holds under that key afterwards, and was produced by the peer machine under the
+     server's current discovery table *)
+  Theorem dgram_outputs : forall s r lst dst d s' o id k x, wf s ->
+    step s (EDgram r lst dst d) = SOk s' o -> In (SOut id k x) o ->
+    fst k = r /\ (exists c, lookup (conns s') k = Some c /\ c_id c = id) /\
+    exists st st' outs err n, peer_step (mh s) st (recv_trunc d) = POk st' outs err n /\ In x outs.
+  Proof.
+    intros s r lst dst d s' o id k x Hw H Hin. cbn [Model.step] in H.
+    destruct (get_conn s r (dgram_laddr lst dst)) as [[s1 o1] res] eqn:G.
+    destruct (get_conn_spec _ _ _ _ _ _ Hw G) as [Hw1 [Hm [Hp [Ho Hres]]]].
+    assert (Hno : ~ In (SOut id k x) o1).
+    { intro Hi. unfold Model.get_conn in G. destruct (get_or_create s r _) as [[t c] cr].
+      destruct (c_closed c).
+      - destruct (get_or_create (close_fn t c) r _) as [[u dd] dr]. destruct (c_closed dd); injection G as _ <- _;
+          apply in_app_or in Hi as [Hi|Hi]; [destruct cr|destruct dr|destruct cr|destruct dr]; cbn in Hi;
+          try tauto; destruct Hi as [Hi|[]]; discriminate.
+      - injection G as _ <- _. destruct cr; cbn in Hi; try tauto. destruct Hi as [Hi|[]]; discriminate. }
+    destruct res as [c|].
+    - destruct (peer_step (mh s1) (c_st c) (recv_trunc d)) as [st' outs err n|] eqn:P; [|discriminate].
+      injection H as <- <-. destruct Hres as [Hl [Hf Hcl]].
+      apply in_app_or in Hin as [Hin|Hin]; [contradiction|]. apply in_app_or in Hin as [Hin|Hin].
+      + apply in_map_iff in Hin as [y [Hy Hyin]]. injection Hy as <- <- <-.
+        split; [assumption|]. split.
+        * eexists. split; [cbn [conns]; apply lookup_update_same; eassumption|reflexivity].
+        * rewrite Hm in P. eauto 8.
+      + destruct err; cbn in Hin; [destruct Hin as [Hin|[]]; discriminate|contradiction].
+    - injection H as <- <-. apply in_app_or in Hin as [Hin|Hin]; [contradiction|].
+      cbn in Hin. destruct Hin as [Hin|[]]. discriminate.
+  Qed.
 End ServerProofs.
+
+(* ---------- the concrete connection (cstep) satisfies the hypotheses ---------- *)
+
+(* server-chosen message IDs: a confirmable reply carries the connection's own counter *)
+Definition erase_wire (w : wire) : wire :=
+  if w_typ w =? CON then {| w_typ := w_typ w; w_code := w_code w; w_mid := 0; w_tok := w_tok w; w_opts := w_opts w; w_pay := w_pay w |} else w.
+Definition erase_cout (o : cout) : cout := match o with CWire w => CWire (erase_wire w) | _ => o end.
+
+Definition ecache (c : list (Z * entry)) : list (Z * wire * Z) :=
+  map (fun ke => (fst ke, erase_wire (e_reply (snd ke)), e_left (snd ke))) c.
+Definition csim (s1 s2 : cstate) : Prop := ecache (cache s1) = ecache (cache s2).
+
+Lemma erase_wire_fields w1 w2 : erase_wire w1 = erase_wire w2 ->
+  w_typ w1 = w_typ w2 /\ w_code w1 = w_code w2 /\ w_tok w1 = w_tok w2 /\ w_opts w1 = w_opts w2 /\ w_pay w1 = w_pay w2.
+Proof.
+  unfold erase_wire. destruct w1 as [t1 c1 m1 k1 o1 p1], w2 as [t2 c2 m2 k2 o2 p2]; cbn.
+  destruct (t1 =? CON) eqn:E1, (t2 =? CON) eqn:E2; intro H; injection H; intros; subst; repeat split; auto.
+Qed.
+
+Lemma ecache_lookup : forall c1 c2 k, ecache c1 = ecache c2 ->
+  match Dedup.Model.lookup c1 k, Dedup.Model.lookup c2 k with
+  | Some e1, Some e2 => erase_wire (e_reply e1) = erase_wire (e_reply e2) /\ e_left e1 = e_left e2
+  | None, None => True
+  | _, _ => False
+  end.
+Proof.
+  induction c1 as [|[k1 e1] r1 IH]; intros [|[k2 e2] r2] k H; cbn in *; try discriminate; [exact I|].
+  injection H as Hk Hr Hl Ht. subst k2. destruct (k =? k1); [auto|]. apply IH. assumption.
+Qed.
+Lemma ecache_remove : forall c1 c2 k, ecache c1 = ecache c2 ->
+  ecache (Dedup.Model.remove c1 k) = ecache (Dedup.Model.remove c2 k).
+Proof.
+  induction c1 as [|[k1 e1] r1 IH]; intros [|[k2 e2] r2] k H; cbn in *; try discriminate; [reflexivity|].
+  injection H as Hk Hr Hl Ht. subst k2. destruct (k =? k1); [apply IH; assumption|]. cbn. rewrite Hr, Hl. f_equal. apply IH. assumption.
+Qed.
+Lemma ecache_load : forall c1 c2 k, ecache c1 = ecache c2 ->
+  match cache_load c1 k, cache_load c2 k with
+  | Some e1, Some e2 => erase_wire (e_reply e1) = erase_wire (e_reply e2)
+  | None, None => True
+  | _, _ => False
+  end.
+Proof.
+  intros c1 c2 k H. unfold cache_load. pose proof (ecache_lookup c1 c2 k H) as HL.
+  destruct (Dedup.Model.lookup c1 k) as [e1|], (Dedup.Model.lookup c2 k) as [e2|]; try contradiction; [|exact I].
+  destruct HL as [Hr Hl]. unfold expired. rewrite Hl. destruct (e_left e2 <? 0); [exact I|assumption].
+Qed.
+Lemma ecache_store : forall c1 c2 k r1 r2, ecache c1 = ecache c2 -> erase_wire r1 = erase_wire r2 ->
+  ecache (cache_store c1 k r1) = ecache (cache_store c2 k r2).
+Proof.
+  intros c1 c2 k r1 r2 H Hr. unfold cache_store. pose proof (ecache_load c1 c2 k H) as HL.
+  destruct (cache_load c1 k), (cache_load c2 k); try contradiction; [assumption|].
+  cbn. rewrite Hr. f_equal. apply ecache_remove. assumption.
+Qed.
+
+Lemma dstep_sim : forall s1 s2 t mid tok code ro b, csim s1 s2 ->
+  let r1 := Dedup.Model.step s1 (Req t mid tok code ro b) in
+  let r2 := Dedup.Model.step s2 (Req t mid tok code ro b) in
+  csim (fst r1) (fst r2) /\ o_called (snd r1) = o_called (snd r2)
+  /\ map erase_wire (o_out (snd r1)) = map erase_wire (o_out (snd r2)).
+Proof.
+  intros s1 s2 t mid tok code ro b H. unfold csim in *. cbn [Dedup.Model.step].
+  generalize (if t =? CON then check_my_mid 4 mid (own s1) else own s1) as a1.
+  generalize (if t =? CON then check_my_mid 4 mid (own s2) else own s2) as a2. intros a2 a1.
+  pose proof (ecache_load (cache s1) (cache s2) mid H) as HL.
+  destruct (is_cacheable_typ t).
+  - destruct (cache_load (cache s1) mid) as [e1|], (cache_load (cache s2) mid) as [e2|]; try contradiction.
+    + destruct (erase_wire_fields _ _ HL) as [_ [Hc [Hk [Ho Hp]]]]. cbn. rewrite Hc, Hk, Ho, Hp. auto.
+    + destruct (handler_result ro b) as [[[rc ro'] rp]|]; destruct (t =? CON) eqn:Et; cbn [fst snd cache o_called o_out map].
+      * split; [apply ecache_store; [assumption|reflexivity]|auto].
+      * split; [|split; [reflexivity|]].
+        -- destruct (t =? NON); [|assumption]. apply ecache_store; [assumption|]. unfold erase_wire; cbn. reflexivity.
+        -- unfold erase_wire; cbn. reflexivity.
+      * split; [apply ecache_store; [assumption|reflexivity]|auto].
+      * auto.
+  - destruct (handler_result ro b) as [[[rc ro'] rp]|]; destruct (t =? CON) eqn:Et; cbn [fst snd cache o_called o_out map].
+    + split; [apply ecache_store; [assumption|reflexivity]|auto].
+    + split; [|split; [reflexivity|]].
+      -- destruct (t =? NON); [|assumption]. apply ecache_store; [assumption|]. unfold erase_wire; cbn. reflexivity.
+      -- unfold erase_wire; cbn. reflexivity.
+    + split; [apply ecache_store; [assumption|reflexivity]|auto].
+    + auto.
+Qed.
+
+Lemma cstep_sim : forall maxsize t s1 s2 d, csim s1 s2 ->
+  match cstep maxsize t s1 d, cstep maxsize t s2 d with
+  | POk s1' o1 e1 _, POk s2' o2 e2 _ => csim s1' s2' /\ map erase_cout o1 = map erase_cout o2 /\ e1 = e2
+  | PPanic, PPanic => True
+  | _, _ => False
+  end.
+Proof.
+  intros maxsize t s1 s2 d H. unfold cstep.
+  destruct (negb (bytes_ok d)); [auto|].
+  destruct (maxsize <? blen d); [auto|].
+  destruct (udp_decode d) as [m|e|]; [|auto|exact I].
+  destruct (is_ping m); [cbn; auto|].
+  destruct (is_separate m); [cbn; auto|].
+  destruct (match mh_lookup t (m_tok m) with
+            | Some r => (BNone, CDeliver r (m_tok m) (m_code m) (m_pay m))
+            | None => (app_behaviour m, CHandled (m_tok m) (m_code m) (m_pay m)) end) as [b note].
+  pose proof (dstep_sim s1 s2 (m_typ m) (m_mid m) (m_tok m) (m_code m) (m_opts m) b H) as HS. cbn zeta in HS.
+  destruct (Dedup.Model.step s1 _) as [s1' o1]. destruct (Dedup.Model.step s2 _) as [s2' o2]. cbn [fst snd] in HS.
+  destruct HS as [Hs [Hc Ho]]. split; [assumption|]. split; [|reflexivity].
+  rewrite !map_app, Hc. f_equal. rewrite !map_map. cbn [erase_cout].
+  rewrite <- (map_map erase_wire CWire), <- (map_map erase_wire CWire (o_out o2)), Ho. reflexivity.
+Qed.
+
+Lemma cinit_sim : forall g1 g2, csim (cinit g1) (cinit g2).
+Proof. reflexivity. Qed.
+
+(* ----- the datagram decoder never indexes out of range ----- *)
+Lemma blen_nonneg {A} (l : list A) : 0 <= blen l. Proof. unfold blen. lia. Qed.
+Lemma blen_cons {A} (x : A) l : blen (x :: l) = blen l + 1. Proof. unfold blen. cbn [length]. lia. Qed.
+Lemma blen_skipn {A} (l : list A) n : 0 <= n <= blen l -> blen (skipn (Z.to_nat n) l) = blen l - n.
+Proof. unfold blen. intro H. rewrite skipn_length. lia. Qed.
+Lemma bytes_ok_skipn l n : bytes_ok l = true -> bytes_ok (skipn n l) = true.
+Proof.
+  unfold bytes_ok. revert l. induction n as [|n IH]; intros l H; [assumption|]. destruct l as [|x r]; [reflexivity|].
+  cbn in *. apply andb_prop in H as [_ H]. apply IH. assumption.
+Qed.
+Lemma slice_from_some d n : 0 <= n <= blen d -> slice_from d n = Some (skipn (Z.to_nat n) d).
+Proof. intro H. unfold slice_from. replace (0 <=? n) with true by lia. replace (n <=? blen d) with true by lia. reflexivity. Qed.
+Lemma slice_to_some d n : 0 <= n <= blen d -> slice_to d n = Some (firstn (Z.to_nat n) d).
+Proof. intro H. unfold slice_to. replace (0 <=? n) with true by lia. replace (n <=? blen d) with true by lia. reflexivity. Qed.
+Lemma bytes_ok_head b r : bytes_ok (b :: r) = true -> 0 <= b < 256 /\ bytes_ok r = true.
+Proof. unfold bytes_ok, byte_ok. cbn. intro H. apply andb_prop in H as [H1 H2]. split; [lia|assumption]. Qed.
+
+Lemma parse_ext_spec data v : bytes_ok data = true -> 0 <= v ->
+  match parse_ext data v with
+  | DPanic => False
+  | DErr _ => True
+  | DOk (p, v') => 0 <= p <= blen data /\ 0 <= v'
+  end.
+Proof.
+  intros Hb Hv. unfold parse_ext. destruct (v =? 13).
+  - destruct data as [|b r]; [cbn; exact I|]. rewrite blen_cons. pose proof (blen_nonneg r).
+    replace (blen r + 1 <? 1) with false by lia. apply bytes_ok_head in Hb as [Hb _]. lia.
+  - destruct (v =? 14); [|pose proof (blen_nonneg data); lia].
+    destruct data as [|a [|b r]]; try (cbn; exact I). rewrite !blen_cons. pose proof (blen_nonneg r).
+    replace (blen r + 1 + 1 <? 2) with false by lia.
+    apply bytes_ok_head in Hb as [Ha Hb]. apply bytes_ok_head in Hb as [Hb _]. lia.
+Qed.
+
+Lemma unmarshal_spec : forall fuel data prev acc processed, bytes_ok data = true ->
+  match unmarshal_opts fuel data prev acc processed with
+  | DPanic => False
+  | DErr _ => True
+  | DOk (proc, _) => processed <= proc <= processed + blen data
+  end.
+Proof.
+  induction fuel as [|f IH]; intros data prev acc processed Hb; cbn [unmarshal_opts]; [pose proof (blen_nonneg data); lia|].
+  destruct data as [|b rest]; [cbn; lia|]. apply bytes_ok_head in Hb as [Hb0 Hb]. rewrite blen_cons. pose proof (blen_nonneg rest) as Hrest.
+  destruct (b =? 255); [lia|].
+  assert (Hd : 0 <= b / 16) by (apply Z.div_pos; lia). assert (Hl : 0 <= b mod 16) by (apply Z.mod_pos_bound; lia).
+  destruct ((b / 16 =? extend_option_error) || (b mod 16 =? extend_option_error)); [exact I|].
+  pose proof (parse_ext_spec rest (b / 16) Hb Hd) as P1.
+  destruct (parse_ext rest (b / 16)) as [[p1 delta]|e|]; [|exact I|contradiction].
+  destruct P1 as [Hp1 Hdelta]. rewrite (slice_from_some _ _ Hp1).
+  pose proof (bytes_ok_skipn rest (Z.to_nat p1) Hb) as Hb1.
+  pose proof (parse_ext_spec (skipn (Z.to_nat p1) rest) (b mod 16) Hb1 Hl) as P2.
+  destruct (parse_ext (skipn (Z.to_nat p1) rest) (b mod 16)) as [[p2 len]|e|]; [|exact I|contradiction].
+  destruct P2 as [Hp2 Hlen]. rewrite (slice_from_some _ _ Hp2).
+  pose proof (bytes_ok_skipn _ (Z.to_nat p2) Hb1) as Hb2.
+  pose proof (blen_skipn rest p1 Hp1) as L1. pose proof (blen_skipn _ p2 Hp2) as L2.
+  destruct (blen (skipn (Z.to_nat p2) (skipn (Z.to_nat p1) rest)) <? len) eqn:El; [exact I|].
+  destruct (65535 <? prev + delta); [exact I|].
+  assert (Hr : 0 <= len <= blen (skipn (Z.to_nat p2) (skipn (Z.to_nat p1) rest))) by lia.
+  rewrite (slice_to_some _ _ Hr), (slice_from_some _ _ Hr).
+  pose proof (blen_skipn _ len Hr) as L3.
+  pose proof (bytes_ok_skipn _ (Z.to_nat len) Hb2) as Hb3.
+  specialize (IH (skipn (Z.to_nat len) (skipn (Z.to_nat p2) (skipn (Z.to_nat p1) rest))) (prev + delta)
+                 (if opt_kept (prev + delta) len && negb (prev + delta =? 0)
+                  then acc ++ [(prev + delta, firstn (Z.to_nat len) (skipn (Z.to_nat p2) (skipn (Z.to_nat p1) rest)))] else acc)
+                 (processed + 1 + p1 + p2 + len) Hb3).
+  destruct (unmarshal_opts f _ _ _ _) as [[proc os]|e|]; [lia|exact I|contradiction].
+Qed.
+
+Lemma udp_decode_no_panic d : bytes_ok d = true -> udp_decode d <> DPanic.
+Proof.
+  intro Hb. unfold udp_decode. destruct (blen d <? 4) eqn:E4; [discriminate|].
+  destruct d as [|b0 [|b1 [|b2 [|b3 r]]]]; try (cbn in E4; discriminate).
+  destruct (negb (b0 / 64 =? 1)); [discriminate|].
+  destruct (max_token_size <? b0 mod 16); [discriminate|].
+  assert (H4 : 0 <= 4 <= blen (b0 :: b1 :: b2 :: b3 :: r)) by (rewrite !blen_cons; pose proof (blen_nonneg r); lia).
+  rewrite (slice_from_some _ _ H4). change (skipn (Z.to_nat 4) (b0 :: b1 :: b2 :: b3 :: r)) with r.
+  destruct (blen r <? b0 mod 16) eqn:Et; [discriminate|].
+  pose proof (bytes_ok_head _ _ Hb) as [Hb0 Hb1].
+  assert (Hr : bytes_ok r = true) by (apply (bytes_ok_skipn _ 3%nat) in Hb1; exact Hb1).
+  assert (Hk : 0 <= b0 mod 16 <= blen r) by (pose proof (Z.mod_pos_bound b0 16); lia).
+  rewrite (slice_to_some _ _ Hk), (slice_from_some _ _ Hk).
+  pose proof (bytes_ok_skipn r (Z.to_nat (b0 mod 16)) Hr) as Hr1.
+  pose proof (unmarshal_spec (S (length (skipn (Z.to_nat (b0 mod 16)) r))) _ 0 [] 0 Hr1) as HU.
+  destruct (unmarshal_opts _ _ 0 [] 0) as [[proc os]|e|] eqn:EU; [|discriminate|contradiction].
+  rewrite slice_from_some by lia. discriminate.
+Qed.
+
+(* C10_total for the concrete connection *)
+Theorem cstep_total : forall maxsize t s d, cstep maxsize t s d <> PPanic.
+Proof.
+  intros maxsize t s d. unfold cstep. destruct (bytes_ok d) eqn:Hb; cbn [negb]; [|discriminate].
+  destruct (maxsize <? blen d); [discriminate|].
+  pose proof (udp_decode_no_panic d Hb) as HD.
+  destruct (udp_decode d) as [m|e|]; [|discriminate|contradiction].
+  destruct (is_ping m); [discriminate|]. destruct (is_separate m); [discriminate|].
+  destruct (match mh_lookup t (m_tok m) with
+            | Some r => (BNone, CDeliver r (m_tok m) (m_code m) (m_pay m))
+            | None => (app_behaviour m, CHandled (m_tok m) (m_code m) (m_pay m)) end) as [b note].
+  destruct (Dedup.Model.step s _). discriminate.
+Qed.
+
+Lemma cstep_sim_step : forall maxsize t s1 s2 d, csim s1 s2 ->
+  match cstep maxsize t s1 d, cstep maxsize t s2 d with
+  | POk s1' o1 e1 _, POk s2' o2 e2 _ => csim s1' s2' /\ map erase_cout o1 = map erase_cout o2 /\ e1 = e2
+  | _, _ => False
+  end.
+Proof.
+  intros maxsize t s1 s2 d H. pose proof (cstep_sim maxsize t s1 s2 d H) as HS.
+  pose proof (cstep_total maxsize t s1 d). pose proof (cstep_total maxsize t s2 d).
+  destruct (cstep maxsize t s1 d), (cstep maxsize t s2 d); try contradiction; assumption.
+Qed.
+
+(* ----- discovery: the cfg.Handler wrapper ----- *)
+Theorem cstep_discovery : forall maxsize t s d s' outs err n, cstep maxsize t s d = POk s' outs err n ->
+  (forall r tok code pay, In (CDeliver r tok code pay) outs -> mh_lookup t tok = Some r) /\
+  (forall tok code pay, In (CHandled tok code pay) outs -> mh_lookup t tok = None).
+Proof.
+  intros maxsize t s d s' outs err n H. unfold cstep in H.
+  destruct (negb (bytes_ok d)); [injection H as _ <- _ _; split; intros; contradiction|].
+  destruct (maxsize <? blen d); [injection H as _ <- _ _; split; intros; contradiction|].
+  destruct (udp_decode d) as [m|e|]; [|injection H as _ <- _ _; split; intros; contradiction|discriminate].
+  destruct (is_ping m); [injection H as _ <- _ _; split; intros ? ? ? ?; cbn; intros; try tauto; destruct H as [H|[]]; discriminate|].
+  destruct (is_separate m); [injection H as _ <- _ _; split; intros; contradiction|].
+  destruct (mh_lookup t (m_tok m)) as [r0|] eqn:EL;
+    destruct (Dedup.Model.step s _) as [s1 o1]; injection H as _ <- _ _; split; intros;
+    match goal with Hin : In _ _ |- _ => apply in_app_or in Hin as [Hin|Hin];
+      [destruct (o_called o1); cbn in Hin; [destruct Hin as [Hin|[]]; inversion Hin; subst; try assumption|contradiction]
+      |apply in_map_iff in Hin as [y [Hy _]]; discriminate] end.
+Qed.
+
+(* conversely: a message that reaches the handler layer (not a ping / bare ACK, not answered from the
+   response cache) whose token is registered is handed to that receiver *)
+Theorem cstep_discovery_delivers : forall maxsize t s d m r, bytes_ok d = true -> blen d <= maxsize ->
+  udp_decode d = DOk m -> is_ping m = false -> is_separate m = false ->
+  (if is_cacheable_typ (m_typ m) then cache_load (cache s) (m_mid m) else None) = None ->
+  mh_lookup t (m_tok m) = Some r ->
+  exists s' outs n, cstep maxsize t s d = POk s' outs false n /\ In (CDeliver r (m_tok m) (m_code m) (m_pay m)) outs.
+Proof.
+  intros maxsize t s d m r Hb Hsz Hd Hp Hs Hc Hl. unfold cstep. rewrite Hb. cbn [negb].
+  replace (maxsize <? blen d) with false by lia. rewrite Hd, Hp, Hs, Hl.
+  cbn [Dedup.Model.step]. rewrite Hc. cbn [handler_result].
+  destruct (m_typ m =? CON); cbn; do 3 eexists; (split; [reflexivity|]); cbn; auto.
+Qed.
+
+(* registration: EDiscStart registers unless the token is taken, EDiscEnd removes, nothing else touches the table *)
+Lemma mh_remove_lookup_same t tok : mh_lookup (mh_remove t tok) tok = None.
+Proof.
+  induction t as [|[k r] rest IH]; cbn; [reflexivity|]. destruct (bytes_eqb k tok) eqn:E; [assumption|]. cbn. rewrite E. assumption.
+Qed.
